@@ -27,6 +27,9 @@ class Grid:                     # 2-D: rows, cols symbols ('1' = broadcast axis)
 
 UN = {'np.sinc': 'sinc', 'np.exp': 'exp', 'np.sqrt': 'sqrt', 'np.sin': 'sin', 'np.cos': 'cos'}
 
+class Opaque:                   # an array that is only passed on (img, out)
+    def __init__(s, name): s.name = name
+
 def _lift(f, a, b=None):
     """apply the Lean expression builder f element-wise with NumPy broadcasting of scalars"""
     xs = [a] if b is None else [a, b]
@@ -60,6 +63,14 @@ def _expr(e, env, where):
         if type(e.op) not in ops: raise Refuse(f'{where}: unsupported operator in {_u(e)[:50]}')
         o = ops[type(e.op)]
         return _lift(lambda a, b: f'({a} {o} {b})', _expr(e.left, env, where), _expr(e.right, env, where))
+    if isinstance(e, ast.Call) and _u(e.func) == 'np.radians' and len(e.args) == 1 and not e.keywords:
+        a = _expr(e.args[0], env, where)
+        if not isinstance(a, Sc): raise Refuse(f'{where}: np.radians of a non-scalar')
+        return Sc(f'({a.e} * (pi / ofInt 180))')
+    if isinstance(e, ast.Call) and _u(e.func) == 'np.random.uniform' and len(e.args) == 2 and not e.keywords:
+        lo, hi = _expr(e.args[0], env, where), _expr(e.args[1], env, where)
+        if not (isinstance(lo, Sc) and isinstance(hi, Sc)): raise Refuse(f'{where}: np.random.uniform with non-scalar bounds')
+        return Sc(f'({lo.e} + (({hi.e} - {lo.e}) * u))')          # u: the generator's uniform [0, 1) variate
     if isinstance(e, ast.Call) and _u(e.func) in UN and len(e.args) == 1 and not e.keywords:
         fn = UN[_u(e.func)]
         a = _expr(e.args[0], env, where)
@@ -89,24 +100,44 @@ def _expr(e, env, where):
         return Grid(a.ln, b.ln, lambda i, j, a=a, b=b: f'({a.at(i)} * {b.at(j)})')
     raise Refuse(f'{where}: unsupported expression {_u(e)[:60]}')
 
-APPLY = 'np.abs(np.fft.ifft2(np.fft.fft2(img) * kernel))'
-RENORM = 'return out * np.sum(img) / np.sum(out)'
+def _apply_expr(e, where):
+    """the closing expression as a composition of the four stages: abs, ifft2, fft2 and the product with the kernel"""
+    if isinstance(e, ast.Name) and e.id in ('img', 'kernel'): return e.id
+    if isinstance(e, ast.Call) and len(e.args) == 1 and not e.keywords and _u(e.func) in ('np.abs', 'np.fft.ifft2', 'np.fft.fft2'):
+        return {'np.abs': 'absF', 'np.fft.ifft2': 'ifft2F', 'np.fft.fft2': 'fft2F'}[_u(e.func)] + f' ({_apply_expr(e.args[0], where)})'
+    if isinstance(e, ast.BinOp) and isinstance(e.op, ast.Mult):
+        l, r = e.left, e.right
+        if isinstance(r, ast.Name) and r.id == 'kernel': return f'mulF ({_apply_expr(l, where)}) kernel'
+        if isinstance(l, ast.Name) and l.id == 'kernel': return f'mulF ({_apply_expr(r, where)}) kernel'
+    raise Refuse(f'{where}: unsupported blur application {_u(e)[:70]}')
 
-def _translate(fn, scalars, where):
+def _renorm_expr(e, where):
+    """`out * np.sum(img) / np.sum(out)`: element `out`, totals `sumImg`, `sumOut`"""
+    if isinstance(e, ast.Name) and e.id == 'out': return 'out'
+    if _u(e) == 'np.sum(img)': return 'sumImg'
+    if _u(e) == 'np.sum(out)': return 'sumOut'
+    if isinstance(e, ast.BinOp) and isinstance(e.op, (ast.Mult, ast.Div)):
+        return f'({_renorm_expr(e.left, where)} {"*" if isinstance(e.op, ast.Mult) else "/"} {_renorm_expr(e.right, where)})'
+    raise Refuse(f'{where}: unsupported renormalisation {_u(e)[:70]}')
+
+def _translate(fn, scalars, where, none_branch=False):
+    """none_branch: translate smear's `angle is None` branch (the direction is drawn from the global generator) instead of the
+    given-angle branch"""
     params = [a.arg for a in fn.args.args]
     if params[0] != 'img' or params[1:] != scalars: raise Refuse(f'{where}: parameters changed: {params}')
     defaults = {p: _u(d) for p, d in zip(params[-len(fn.args.defaults):], fn.args.defaults)} if fn.args.defaults else {}
     env = {p: Sc(p) for p in scalars}
     body = list(fn.body)
     if body and isinstance(body[0], ast.Expr) and isinstance(body[0].value, ast.Constant): body = body[1:]
-    kernel, renorm, applied = None, None, False
+    kernel, renorm, apply_ = None, None, None
     for s in body:
         t = _u(s)
         if t == 'img = np.asarray(img)': continue
         if isinstance(s, ast.If) and _u(s.test) == 'angle is None':
-            if t != 'if angle is None:\n    angle = np.random.uniform(0, 2 * np.pi)\nelse:\n    angle = np.radians(angle)':
-                raise Refuse(f'{where}: angle handling changed: {t[:120]!r}')
-            env['angle'] = Sc('(angle * (pi / ofInt 180))')          # np.radians; the None branch draws radians directly
+            ok = (len(s.body) == 1 and len(s.orelse) == 1 and all(isinstance(x, ast.Assign) and _u(x.targets[0]) == 'angle' for x in (s.body[0], s.orelse[0])))
+            if not ok: raise Refuse(f'{where}: angle handling changed: {t[:120]!r}')
+            env['angle'] = _expr((s.body[0] if none_branch else s.orelse[0]).value, env, where)
+            if not isinstance(env['angle'], Sc): raise Refuse(f'{where}: angle is not a scalar')
             continue
         if isinstance(s, ast.Assign) and len(s.targets) == 1:
             tg = s.targets[0]
@@ -120,20 +151,43 @@ def _translate(fn, scalars, where):
                 continue
             if isinstance(tg, ast.Name):
                 if tg.id == 'out':
-                    if _u(s.value) != APPLY: raise Refuse(f'{where}: blur application changed: {t[:90]}')
-                    applied = True; continue
+                    apply_ = _apply_expr(s.value, where); continue
                 env[tg.id] = _expr(s.value, env, where)
                 if tg.id == 'kernel': kernel = env[tg.id]
                 continue
         if isinstance(s, ast.Return):
-            if _u(s.value) == APPLY and not applied: applied, renorm = True, False
-            elif t == RENORM and applied: renorm = True
-            else: raise Refuse(f'{where}: return statement changed: {t[:90]}')
-            continue
+            if apply_ is None: apply_, renorm = _apply_expr(s.value, where), None
+            else: renorm = _renorm_expr(s.value, where)
+            break
         raise Refuse(f'{where}: unexpected statement `{t[:70]}`')
-    if not (isinstance(kernel, Grid) and applied and renorm is not None): raise Refuse(f'{where}: kernel / application / return not found')
+    if not (isinstance(kernel, Grid) and apply_ is not None): raise Refuse(f'{where}: kernel / application / return not found')
     if kernel.r == '1' or kernel.c == '1': raise Refuse(f'{where}: kernel is not two-dimensional')
-    return kernel, renorm, defaults
+    return kernel, renorm, defaults, apply_
+
+def _pixelate(repo):
+    """detector.pixelate: `img = lentil.detector.pixel(img, oversample)` then `return lentil.rescale(img, <scale>, order=…, mode=…, unitary=…)`"""
+    mod = ast.parse(open(os.path.join(repo, 'lentil/detector.py')).read())
+    fn = [n for n in mod.body if isinstance(n, ast.FunctionDef) and n.name == 'pixelate']
+    if not fn: raise Refuse('detector.py: pixelate not found')
+    fn = fn[0]
+    if [a.arg for a in fn.args.args] != ['img', 'oversample'] or fn.args.defaults: raise Refuse('pixelate: signature changed')
+    body = [s for s in fn.body if not (isinstance(s, ast.Expr) and isinstance(s.value, ast.Constant))]
+    if len(body) != 2 or _u(body[0]) != 'img = lentil.detector.pixel(img, oversample)' or not isinstance(body[1], ast.Return):
+        raise Refuse('pixelate: expected `img = lentil.detector.pixel(img, oversample)` and one return')
+    c = body[1].value
+    if not (isinstance(c, ast.Call) and _u(c.func) == 'lentil.rescale' and len(c.args) == 2 and _u(c.args[0]) == 'img'):
+        raise Refuse(f'pixelate: rescale call changed: {_u(c)[:80]}')
+    scale = _expr(c.args[1], {'oversample': Sc('oversample')}, 'pixelate')
+    kws = {k.arg: _u(k.value) for k in c.keywords}
+    if set(kws) != {'order', 'mode', 'unitary'} or kws['mode'] not in ("'nearest'", "'constant'", "'reflect'", "'wrap'") \
+            or kws['unitary'] not in ('True', 'False') or not kws['order'].isdigit():
+        raise Refuse(f'pixelate: rescale keywords changed: {kws}')
+    nearest = 'true' if kws['mode'] == "'nearest'" else 'false'
+    return (f'/-- `lentil/detector.py:pixelate` (line {fn.lineno}): `pixel(img, oversample)` then `rescale(·, bwPixelateScale, order, mode, unitary)` -/\n'
+            f'def bwPixelateScale (ofInt : Int → R) (oversample : R) : R := {scale.e}\n'
+            f'def bwPixelateOrder : Int := {kws["order"]}\n'
+            f'def bwPixelateModeNearest : Bool := {nearest}\n'
+            f'def bwPixelateUnitary : Bool := {"true" if kws["unitary"] == "True" else "false"}\n')
 
 FNS = [('Pixel', 'lentil/detector.py', 'pixel', ['oversample'], {'oversample': '1'}),
        ('Jitter', 'lentil/convolvable.py', 'jitter', ['scale', 'pixelscale', 'oversample'], {'pixelscale': '1', 'oversample': '1'}),
@@ -146,7 +200,7 @@ def generate(repo):
         mod = ast.parse(open(os.path.join(repo, src)).read())
         fn = [n for n in mod.body if isinstance(n, ast.FunctionDef) and n.name == fname]
         if not fn: raise Refuse(f'{src}: function {fname} not found')
-        k, renorm, defaults = _translate(fn[0], scalars, fname)
+        k, renorm, defaults, apply_ = _translate(fn[0], scalars, fname)
         if defaults != want_defaults: raise Refuse(f'{fname}: default arguments changed: {defaults}')
         ps = ' '.join(scalars)
         L.append(f'/-- `{src}:{fname}` (line {fn[0].lineno}): entry `[i, j]` of `kernel`, operations in source order; `freq n i` is '
@@ -155,11 +209,28 @@ def generate(repo):
                  f'    (s0 s1 : Int) ({ps} : R) (i j : Int) : R :=\n  {k.at("i", "j")}\n'
                  f'/-- rows and columns of that kernel in terms of the image shape `(s0, s1)` -/\n'
                  f'def bw{name}KernelShape (s0 s1 : Int) : Int × Int := ({k.r}, {k.c})\n'
-                 f'/-- whether the result is rescaled by `np.sum(img) / np.sum(out)` -/\n'
-                 f'def bw{name}Renorm : Bool := {"true" if renorm else "false"}\n')
+                 f'/-- whether the result is rescaled, and by which expression of an output sample and the totals `np.sum(img)`, `np.sum(out)` -/\n'
+                 f'def bw{name}Renorm : Bool := {"true" if renorm else "false"}\n'
+                 f'def bw{name}RenormExpr (out sumImg sumOut : R) : R := {renorm if renorm else "out"}\n')
+        if fname == 'smear':
+            kn, _, _, _ = _translate(fn[0], scalars, fname, none_branch=True)
+            psn = ' '.join(p for p in scalars if p != 'angle')
+            L.append(f'/-- `{fname}` with `angle=None`: the direction is `np.random.uniform(lo, hi)` = `lo + (hi − lo)·u`, `u` the uniform [0, 1) variate '
+                     f'of the global generator, used as written in the source (no unit conversion unless the source applies one) -/\n'
+                     f'def bw{name}KernelNone (sinc exp sqrt sin cos : R → R) (pi : R) (ofInt : Int → R) (freq : Int → Int → R)\n'
+                     f'    (s0 s1 : Int) ({psn} u : R) (i j : Int) : R :=\n  {kn.at("i", "j")}\n')
+    L.append(_pixelate(repo))
     L.append('end\n')
+    # the closing composition, per function (generic in the four stages)
+    for name, src, fname, scalars, _ in FNS:
+        mod = ast.parse(open(os.path.join(repo, src)).read())
+        fn = [n for n in mod.body if isinstance(n, ast.FunctionDef) and n.name == fname][0]
+        _, _, _, apply_ = _translate(fn, scalars, fname)
+        L.append(f'/-- `{fname}`: how the output is composed from `np.abs`, `np.fft.ifft2`, `np.fft.fft2` and the product with the kernel -/\n'
+                 f'def bw{name}Apply {{I X Y O Kn : Type}} (absF : Y → O) (ifft2F : X → Y) (fft2F : I → X) (mulF : X → Kn → X) (img : I) (kernel : Kn) : O :=\n'
+                 f'  {apply_}\n')
     return '\n'.join(L), ['blur kernels: element-wise float expressions translated in source order; NumPy broadcasting of scalars; '
-                          'np.radians(angle) = angle·(π/180); defaults pixelscale=1, oversample=1, angle=None pinned']
+                          'np.radians(angle) = angle·(π/180); np.random.uniform(lo, hi) = lo + (hi − lo)·u; defaults pixelscale=1, oversample=1, angle=None pinned']
 
 MODULES = [
     {'name': 'BlurWiring', 'src': 'lentil/convolvable.py', 'generator': generate, 'props': ['C19'], 'imports': []},
